@@ -436,3 +436,62 @@ func NestedQuantSpace(yield func(t *regexref.Expr, family string)) {
 		}
 	}
 }
+
+// PrefixAltSpace yields alternations whose branches are prefixes of one another (every 2 and 3 of `a`, `ab`, `aa`,
+// `aab`, `b`, `ba`, in the order written and reversed), under no quantifier, `*`, `+`, `?` and `{2}`, alone and
+// followed by `b`, `c` or a second such group: every way of splitting a text must be found.
+func PrefixAltSpace(yield func(t *regexref.Expr, family string)) {
+	words := []string{"a", "ab", "aa", "aab", "b", "ba"}
+	var groups []string
+	for i := range words {
+		for j := range words {
+			if i == j {
+				continue
+			}
+			groups = append(groups, "("+words[i]+"|"+words[j]+")")
+			for k := j + 1; k < len(words); k++ {
+				if k != i && i < j {
+					groups = append(groups, "("+words[i]+"|"+words[j]+"|"+words[k]+")", "("+words[k]+"|"+words[j]+"|"+words[i]+")")
+				}
+			}
+		}
+	}
+	for gi, g := range groups {
+		for _, q := range []string{"", "*", "+", "?", "{2}"} {
+			for _, tail := range []string{"", "b", "c", "(a|ab)"} {
+				if tail == "(a|ab)" && gi%3 != 0 {
+					continue
+				}
+				t, err := regexref.Parse(g + q + tail)
+				if err != nil {
+					panic(fmt.Sprintf("PrefixAltSpace: reference cannot read %q: %v", g+q+tail, err))
+				}
+				yield(t, "alternations_of_prefixes")
+			}
+		}
+	}
+}
+
+// CountSpace yields counted repetitions with every pair of bounds n <= m <= 6, `{n}` and `{n,}` up to 6 (plain and
+// lazy), over a character, a group, a class and a nullable group, alone and between two other characters.
+func CountSpace(yield func(t *regexref.Expr, family string)) {
+	var quants []string
+	for n := 0; n <= 6; n++ {
+		quants = append(quants, fmt.Sprintf("{%d}", n), fmt.Sprintf("{%d,}", n))
+		for m := n; m <= 6; m++ {
+			quants = append(quants, fmt.Sprintf("{%d,%d}", n, m))
+		}
+	}
+	for _, body := range []string{"a", "(ab)", "[ab]", "(a?)", "(a|bc)"} {
+		for _, q := range quants {
+			for _, form := range []string{"%s%s", "b%s%sc", "%s%s?a"} {
+				text := fmt.Sprintf(form, body, q)
+				t, err := regexref.Parse(text)
+				if err != nil {
+					panic(fmt.Sprintf("CountSpace: reference cannot read %q: %v", text, err))
+				}
+				yield(t, "counted_repetitions")
+			}
+		}
+	}
+}
